@@ -16,7 +16,7 @@ use std::mem::replace;
 use std::sync::Arc;
 use tokio::sync::mpsc::error::SendError;
 use tokio::sync::{mpsc, oneshot, Mutex};
-use tokio::time::timeout;
+use tokio::time::{timeout, Instant};
 
 pub mod acceptor;
 pub mod initiator;
@@ -363,9 +363,12 @@ async fn receive_ack(
     mut accepted: Accepted,
     mut ack_recv: oneshot::Receiver<IncomingRequest>,
 ) -> Result<IncomingRequest> {
+    // The 2xx is retransmitted with an interval that starts at T1 and doubles
+    // until it reaches T2, the attempt is abandoned after 64*T1 (RFC 3261 13.3.1.4)
+    let abandon = Instant::now() + T1 * 64;
     let mut delta = T1;
 
-    for _ in 1..10 {
+    loop {
         match timeout(delta, &mut ack_recv).await {
             Ok(res) => {
                 // Unwrap should be safe as there should never be
@@ -373,12 +376,14 @@ async fn receive_ack(
                 return Ok(res.unwrap());
             }
             Err(_) => {
+                if Instant::now() >= abandon {
+                    return Err(Error::RequestTimedOut);
+                }
+
                 // retransmit on timeout
                 accepted.retransmit().await?;
-                delta = (T1 * 2).min(T2);
+                delta = (delta * 2).min(T2);
             }
         }
     }
-
-    Err(Error::RequestTimedOut)
 }
